@@ -94,7 +94,8 @@ fn drain<R: Read>(r: &mut ChunkedReader<R>, sizes: &[usize], max_calls: usize) -
 fn vp_native_chunked_wellformed_delivered_exactly() {
     let alphabet: [&[u8]; 4] = [b"a", b"\r\n", b"0\r\n\r\n", b"xyz"];
     let mut cases = 0u64;
-    for nchunks in 0..=3usize {
+    let maxchunks = if std::env::var("VP_TIER").as_deref() == Ok("thorough") { 4usize } else { 3 };
+    for nchunks in 0..=maxchunks {
         let combos = 4usize.pow(nchunks as u32);
         for code in 0..combos {
             let mut chunks: Vec<&[u8]> = Vec::new();
@@ -195,7 +196,8 @@ fn vp_native_chunked_truncation_corruption_faults() {
 #[test]
 fn vp_native_chunked_hostile_inputs_terminate() {
     let mut cases = 0u64;
-    for wire in hostile_wires(6) { let mut r = reader(&wire, 2); let _ = drain(&mut r, &[3], 100); cases += 1; }
+    let depth = if std::env::var("VP_TIER").as_deref() == Ok("thorough") { 7 } else { 6 };
+    for wire in hostile_wires(depth) { let mut r = reader(&wire, 2); let _ = drain(&mut r, &[3], 100); cases += 1; }
     for wire in special_wires() { for seg in [1usize, 64, 100_000] { let mut r = reader(&wire, seg); let _ = drain(&mut r, &[16, 3, 70_000], 400); cases += 1; } }
     println!("VP-NATIVE chunked_hostile_inputs_terminate cases={}", cases);
 }
@@ -237,7 +239,8 @@ fn special_wires() -> Vec<Vec<u8>> {
 #[test]
 fn vp_native_chunked_hostile_inputs_match_spec() {
     let mut cases = 0u64;
-    for wire in hostile_wires(6) {
+    let depth = if std::env::var("VP_TIER").as_deref() == Ok("thorough") { 7 } else { 6 };
+    for wire in hostile_wires(depth) {
         let mut r = reader(&wire, 2);
         let (got, end) = drain(&mut r, &[3], 100);
         let (want, clean) = fut(&wire);
